@@ -205,3 +205,19 @@ def dag(rng, depth=None, width=2, na=2, rmax=4):
     for a in range(na):
         m["next"][sink][a], m["rew"][sink][a], m["pk"][sink][a] = [sink], [0], [1]
     return m
+
+
+def descending_chain(rng, N, hi, lo):
+    """LARGE deterministic MDP: inert states except a chain hi -> hi-1 -> ... -> lo (action 1 steps DOWN, action 0
+    stays), lo absorbing and paying.  In natural order every chain state reads a state updated EARLIER in the same
+    sweep, across whatever boundaries lie between lo and hi (batches, scan segments, devices)."""
+    nxt = [[[s], [s]] for s in range(N)]
+    rew = [[[0], [0]] for _ in range(N)]
+    pk = [[[1], [1]] for _ in range(N)]
+    rew[lo] = [[2], [2]]
+    for s_ in range(lo + 1, hi + 1):
+        nxt[s_][1] = [s_ - 1]
+        rew[s_][1] = [rng.choice([0, 1])]
+    m = {"ns": N, "na": 2, "ne": 1, "next": nxt, "rew": rew, "pk": pk, "PD": 1, "rexp": 0, "v0": [0] * N, "v0exp": 0}
+    m["render"] = T.default_render(N, 2, 1, rng, plain=True)
+    return m
